@@ -517,6 +517,11 @@ class Exec:
             return s.constructor(1)(self.to_term(v, ty.inner))
         if isinstance(v, VOpt) and self.spec_mode:
             return self.to_term(v.val, ty)  # specifications are total: the value is only meaningful under `is not None`
+        if isinstance(v, VOpt):
+            # a maybe-None value flows where the declared model type has no None: prove it is not None here
+            self.oblige("not-None-where-%r-expected" % ty, z3.Not(v.isnone), kind="type-safety")
+            self.assume(z3.Not(v.isnone))
+            return self.to_term(v.val, ty)
         raise Unsupported("to_term %r as %r" % (v, ty))
 
     def from_term(self, t, ty):
